@@ -160,6 +160,29 @@ def oracle(ctx):
             fail = f'the words of {key} become arguments one by one, the empty ones included: {argv[pos[0]:pos[2] + 1]}'
         if fail:
             res.oracle_failures.append(dict(op=op, input=text, impl_output=str(argv)[:500], oracle_expectation=fail))
+    # the same word more than once — next to itself, and again later — is as many words
+    rcases = []
+    for (key, kind), fns in sorted(kinds.items()):
+        for fn in sorted(fns):
+            ty = FN_TY.get(fn)
+            if ty is None or key not in ctx.tables['supported'][G.SUP[ty]] or key in ('Mount', 'RemapUid', 'RemapGid', 'AddDevice'):
+                continue
+            rcases.append((ty, key, '[' + G.SEC[ty] + ']\n' + ''.join(b + '\n' for b in G.BASE[ty]) + f'{key}=r-one r-one r-two "r-one"\n{key}=r-two\n'))
+    rops = [f'convert\t0\t0\t{hx("/q/r." + ty)}\t{hx(text)}' for ty, key, text in rcases]
+    for (ty, key, text), op, a in zip(rcases, rops, ctx.impl(rops)):
+        r = canon.parse_convert(a)[0]
+        if r[0] != 'svc':
+            continue
+        res.oracle_evals += 1
+        argv = []
+        for e in [v for k, v in r[2].get('Service', []) if k.startswith('ExecStart')]:
+            b = ctx.model(['spec_split_exec\t' + hx(e)])[0]
+            argv += [unhx(t) for t in b[4:-1].split(' ') if t] if b.startswith('ok [') else []
+        n1, n2 = sum('r-one' in x.lower() for x in argv), sum('r-two' in x.lower() for x in argv)
+        if key in ('Environment', 'Label', 'Annotation', 'Options', 'Sysctl', 'Secret') and (n1, n2) in ((1, 1), (3, 2)):
+            continue   # (name=value keys keep one value per name: a word without '=' is a name)
+        if (n1, n2) != (3, 2):
+            res.oracle_failures.append(dict(op=op, input=text, impl_output=str(argv)[:500], oracle_expectation=f'{key}: the word r-one three times and r-two twice (got {n1} and {n2})'))
     # … and however the assignment is spelled in the file: the words on continued, indented lines — words that look like section
     # headers, comments or assignments when they start a physical line (indented, so they do not: KF-C03-1 is column 0 only)
     ML_WORDS = ['alpha', '[1,2,3]', 'be\\x41ta', '"q r"', '[z', '#nocomment', ';semi', 'k=v', '[ f', 'x1', ']', 'omega']   # (no word starts with '-': AddDevice reads that as "optional")
